@@ -25,7 +25,7 @@ type c16In struct {
 	Nested    []int `json:"nested,omitempty"`     // positions (0..steps) at which a nested task is spawned
 	NestFail  []bool `json:"nest_fail,omitempty"` // whether that nested task fails
 	NestMS    []int `json:"nest_ms,omitempty"`
-	Success   int   `json:"success"` // 0 absent, 1 present, 2 present and failing
+	Success   int   `json:"success"` // 0 absent, 1 present, 2 present and failing at once, 3 present and failing after 5 simulated ms
 	Fail      int   `json:"fail"`
 	Finally   int   `json:"finally"`
 	ErrListenerMS int `json:"err_listener_ms,omitempty"` // >0: the body registers an error listener that takes this long
@@ -47,7 +47,7 @@ func c16Gen(r *Rand, tier string) interface{} {
 	if r.Chance(1, 3) {
 		in.ErrListenerMS = r.Pick(1, 5, 50)
 	}
-	h := func() int { return []int{0, 1, 1, 1, 2}[r.Intn(5)] }
+	h := func() int { return []int{0, 1, 1, 1, 2, 3}[r.Intn(6)] }
 	in.Success, in.Fail, in.Finally = h(), h(), h()
 	return in
 }
@@ -82,6 +82,9 @@ func (in *c16In) body() string {
 func handlerBody(name string, mode int) string {
 	if mode == 2 {
 		return fmt.Sprintf("mark --id=h.%s\nfail --id=h.%s\n", name, name)
+	}
+	if mode == 3 {
+		return fmt.Sprintf("mark --id=h.%s\nwork --id=h.%s --ms=5\nfail --id=h.%s\n", name, name, name)
 	}
 	return fmt.Sprintf("mark --id=h.%s\n", name)
 }
@@ -176,6 +179,13 @@ func c16Run(inI interface{}, env *Env) *Failure {
 				// surrounding scope: a failing one cancels or pre-empts the others)
 				for _, e := range sa.events {
 					if strings.HasPrefix(e.ID, "h.") && e.ID != "h."+name && e.Kind == "fail" {
+						// The known defect: handlers are concurrent tasks of one scope, one that fails
+						// *at once* ends the scope before a sibling got going. A sibling that failed only
+						// after simulated time had passed cannot explain it: all handlers are submitted
+						// back to back, and simulated time only advances when nothing can run.
+						if started := sa.eventsOf(e.ID); len(started) > 0 && e.At > started[0].At {
+							return failf("C16/wrong-handler", "never-started-while-a-sibling-was-still-running", "body failed=%v: handler %s never ran although handler %s was still working for %v before it failed (events %v)", bodyFailed, name, strings.TrimPrefix(e.ID, "h."), e.At-started[0].At, sa.events)
+						}
 						k := "skipped-after-failing-handler"
 						if env.Known("C16/wrong-handler", k, "a handler that must run (here "+name+") is skipped or cancelled when another handler of the same try block fails") {
 							return nil
